@@ -52,6 +52,18 @@ theorem findLoop_spec (allDirs : List Text) :
         rcases List.mem_cons.mp hq with rfl | hq
         · rfl
         · exact h3 q hq
+    | valueError m =>
+      rcases ih (errs ++ [m]) hrest with ⟨t, pre, d', post, h1, h2, h3⟩ | ⟨es, h1, h2, h3⟩
+      · refine Or.inl ⟨t, (d, .valueError m) :: pre, d', post, by simpa [findLoop] using h1, by simp [h2], ?_⟩
+        intro q hq
+        rcases List.mem_cons.mp hq with rfl | hq
+        · rfl
+        · exact h3 q hq
+      · refine Or.inr ⟨es, by simpa [findLoop] using h1, by simp [h2]; omega, ?_⟩
+        intro q hq
+        rcases List.mem_cons.mp hq with rfl | hq
+        · rfl
+        · exact h3 q hq
 
 theorem showErrors_ok (es : Errors) (sources : List (String × Text)) (color : Bool)
     (h : ∀ g ∈ es, g ≠ []) : ∃ t, showErrors es sources color = .ok t := by
@@ -113,5 +125,40 @@ theorem mergeLocs_produced (lines : List Text) (ls : List Loc) (l : Loc)
         (hall b hmb.1 (by simpa using hmb.2)) hle
     · cases h
   · cases h
+
+/-- The zero-width location at either endpoint of a produced location is produced. -/
+theorem produced_endpoint (lines : List Text) (a : Loc) (h : Produced lines a) (e : End) :
+    Produced lines ⟨(a.pos e).1, (a.pos e).2, (a.pos e).1, (a.pos e).2, false⟩ := by
+  induction h with
+  | tok ln off len line h1 h2 h3 =>
+    cases e with
+    | start => exact Produced.tok ln off 0 line h1 h2 (by omega)
+    | stop =>
+      have := Produced.tok (lines := lines) ln (off + len) 0 line h1 h2 (by omega)
+      simpa [tokLoc, Loc.pos] using this
+  | eof => cases e <;> exact Produced.eof
+  | merge a b syn _ _ _ iha ihb =>
+    cases e with
+    | start => exact iha
+    | stop => exact ihb
+
+theorem spanLoc_produced (lines : List Text) (a b : Loc) (ea eb : End) (l : Loc)
+    (ha : Produced lines a) (hb : Produced lines b) (h : spanLoc a ea b eb = .ok l) :
+    Produced lines l := by
+  unfold spanLoc mkLoc at h
+  split at h
+  · rename_i hc
+    simp only [Bool.and_eq_true] at hc
+    simp only [Except.ok.injEq] at h
+    subst h
+    exact Produced.merge _ _ false (produced_endpoint lines a ha ea) (produced_endpoint lines b hb eb) hc.1
+  · cases h
+
+theorem produced_line_pos (lines : List Text) (a : Loc) (h : Produced lines a) :
+    a.sl ≠ 0 ∧ a.el ≠ 0 := by
+  obtain ⟨hs, he, _⟩ := produced_inFile lines a h
+  constructor
+  · rcases hs with ⟨_, h1, _⟩ | ⟨h1, _⟩ <;> omega
+  · rcases he with ⟨_, h1, _⟩ | ⟨h1, _⟩ <;> omega
 
 end Emboss.Pipeline
